@@ -718,7 +718,7 @@ var abciMuts = []mutInfo{
 	{"Code", "free"}, {"Key", "bound"}, {"Key:empty", "bound"}, {"Value", "bound"}, {"Value:nil", "bound"}, {"Value:empty", "bound"},
 	{"Height", "bound"}, {"Height:zero", "bound"}, {"ProofOps:nil", "proof"}, {"ProofOps:drop-op", "proof"}, {"ProofOps.Key", "proof"},
 	{"ProofOps.Type", "proof"}, {"ProofOps.Data", "proof"}, {"ProofOps:swap", "proof"}, {"Value+ProofOps", "bound"},
-	{"Log", "free"}, {"Info", "free"}, {"Index", "free"}, {"Codespace", "free"}, {"Key+Value+ProofOps:other-key", "request"}, {"Answer:other-height", "request"}, {"Value+ProofOps:degenerate-prefix", "bound"}, {"Value+ProofOps:keyless-prefix", "bound"}, {"Answer:from-store-path", "other"},
+	{"Log", "free"}, {"Info", "free"}, {"Index", "free"}, {"Codespace", "free"}, {"Key+Value+ProofOps:other-key", "request"}, {"Answer:other-height", "request"}, {"Value+ProofOps:degenerate-prefix", "proof"}, {"Value+ProofOps:keyless-prefix", "proof"}, {"Answer:from-store-path", "other"},
 }
 
 func mutABCI(c *chain, res *ctypes.ResultABCIQuery, mut string, k int) {
